@@ -316,10 +316,11 @@ type c08Outer struct {
 	List []int          `json:"list,optional"`
 	M    map[string]int `json:"m,optional"`
 	Req  *int           `json:"req,range=[0:9]"`
+	MS   map[string][]int `json:"ms,optional"`
 }
 
-//verif:entry tier=quick,thorough native steps=4000000 maporder=first cover=accepted,rejected,nestedmissing,nestedrange,pointer,slice,mapfield,requiredpointer
-//verif:doc Unmarshaler("json").Unmarshal into struct{In Inner; Ptr *Inner optional; List []int optional; M map[string]int optional; Req *int range=[0:9] (required)} with Inner{V int range=[0:9]; W string optional}: nested maps present or absent, V symbolic in +-2^20 (or missing), list of 0..2 symbolic ints, map of 0..1 entries: accepted iff the required nested struct and its required field are supplied and every supplied V lies in its range; the target then mirrors the input exactly (nested values, pointer allocated only when supplied, slice and map contents).
+//verif:entry tier=quick,thorough native steps=4000000 maporder=first cover=accepted,rejected,nestedmissing,nestedrange,pointer,slice,mapfield,requiredpointer,nullelement
+//verif:doc Unmarshaler("json").Unmarshal into struct{In Inner; Ptr *Inner optional; List []int optional; M map[string]int optional; Req *int range=[0:9] (required); MS map[string][]int optional (element a list, an empty list or null)} with Inner{V int range=[0:9]; W string optional}: nested maps present or absent, V symbolic in +-2^20 (or missing), list of 0..2 symbolic ints, map of 0..1 entries: accepted iff the required nested struct and its required field are supplied and every supplied V lies in its range; the target then mirrors the input exactly (nested values, pointer allocated only when supplied, slice and map contents).
 func Verif_C08_StructNested() {
 	m := map[string]any{}
 	ok := true
@@ -366,6 +367,17 @@ func Verif_C08_StructNested() {
 		}
 		m["m"] = mm
 	}
+	// a map of slices whose element is a list, an empty list, or null (as a JSON document may say)
+	msKind := rt.Choose("mapOfSlices", 4) // 0 absent, 1 one-element list, 2 empty list, 3 null
+	switch msKind {
+	case 1:
+		m["ms"] = map[string]any{"k": []any{json.Number("7")}}
+	case 2:
+		m["ms"] = map[string]any{"k": []any{}}
+	case 3:
+		m["ms"] = map[string]any{"k": nil}
+		rt.Cover("nullelement")
+	}
 	hasReq := rt.Bool("hasReq")
 	reqV := rt.Int("reqV", -3, 12)
 	if hasReq {
@@ -376,6 +388,11 @@ func Verif_C08_StructNested() {
 	}
 	var t c08Outer
 	err := NewUnmarshaler("json").Unmarshal(m, &t)
+	if msKind == 3 {
+		// null for a list-valued map element: accepted as "no list" or rejected, but never a panic
+		// (a panic is reported by the engine as a violation of its own)
+		return
+	}
 	if !ok {
 		rt.Cover("rejected")
 		rt.CoverIf(!hasReq, "requiredpointer")
@@ -388,6 +405,12 @@ func Verif_C08_StructNested() {
 	rt.Assert(err == nil, "input meeting all declared constraints is accepted")
 	rt.Assert(int64(t.In.V) == inV && t.In.W == w, "the nested struct holds the supplied values")
 	rt.Assert(t.Req != nil && int64(*t.Req) == reqV, "the required pointer scalar holds the supplied value")
+	switch msKind {
+	case 1:
+		rt.Assert(len(t.MS) == 1 && len(t.MS["k"]) == 1 && t.MS["k"][0] == 7, "a map of lists holds the supplied lists")
+	case 2:
+		rt.Assert(len(t.MS) == 1 && len(t.MS["k"]) == 0, "an empty list stays an empty list")
+	}
 	if hasPtr {
 		rt.Cover("pointer")
 		rt.Assert(t.Ptr != nil && int64(t.Ptr.V) == ptrV && t.Ptr.W == "", "the pointed-to nested struct holds the supplied values")
